@@ -226,7 +226,15 @@ AnyNode(v, C) ==
 \* classes no stock mapper has a handler for (nor for any of their bases)
 NoHandler == {"URoot", "UChild", "ULeg", "ULegChild", "UPlain", "Leaf", "AlgebraicLeaf", "QuotientBase"}
 VarLike   == {"Variable", "UVar", "UTagVar"}
-Mappable(tree) == ~AnyNode(tree, NoHandler)
+\* fractions.Fraction is not among the constant types the mappers accept
+RECURSIVE HasFrac(_)
+HasFrac(v) ==
+    CASE v.t = "K" -> v.k = "frac"
+      [] v.t = "N" -> \E i \in 1..Len(v.f) : HasFrac(v.f[i])
+      [] v.t = "T" -> \E i \in 1..Len(v.c) : HasFrac(v.c[i])
+      [] v.t = "M" -> \E i \in 1..Len(v.kv) : HasFrac(v.kv[i].v)
+      [] OTHER -> FALSE
+Mappable(tree) == ~AnyNode(tree, NoHandler) /\ ~HasFrac(tree)
 \* the harness' rebuilding identity mapper returns fresh Variable nodes, hence fresh parents
 Rebuilds(tree) == AnyNode(tree, VarLike)
 
